@@ -122,3 +122,8 @@ def c03(pid, tier):
 @register("C04")
 def c04(pid, tier):
     return run_leaf(pid, tier, leaf.c04)
+
+
+@register("C05")
+def c05(pid, tier):
+    return run_leaf(pid, tier, leaf.c05)
